@@ -11,6 +11,9 @@
 (*   cb        scripted effect of the timer's callback:                    *)
 (*             <<"none">> | <<"unplan", t>> | <<"plan", t, ds, i>>         *)
 (*             (plan timer t with start = now + ds and interval i)         *)
+(*             | <<"exec2">> (the callback runs exec(now) of ANOTHER       *)
+(*             manager: no effect on this one; the trace specification     *)
+(*             keeps a second, independent scheduler state for it)         *)
 (*                                                                         *)
 (* Property layer: RefExec(S, now, fired) accepts a firing sequence iff    *)
 (* every firing is due, no due timer with an earlier deadline is passed    *)
@@ -47,6 +50,7 @@ UnplanT(s, t) == [s EXCEPT !.list = Without(s.list, t)]
 ApplyCb(s, f, tm) ==
    LET e == s.cb[f] IN
    CASE e[1] = "none"   -> s
+     [] e[1] = "exec2"  -> s
      [] e[1] = "unplan" -> UnplanT(s, e[2])
      [] e[1] = "plan"   -> PlanAt(s, e[2], tm + e[3], e[4])
 \* what exec does with a timer that has just fired
@@ -93,7 +97,7 @@ PlanRel(t, ds, iv) == /\ t \in Timers /\ S' = PlanAt(S, t, now + ds, iv) /\ UNCH
 \* plan(tim) with the parameters the timer already has
 Replan(t) == /\ t \in Timers /\ S' = PlanIns(S, t) /\ UNCHANGED <<now, sm>> /\ Fix
 Unplan(t) == /\ t \in Timers /\ S' = UnplanT(S, t) /\ UNCHANGED <<now, sm>> /\ Fix
-SetCb(t, e) == /\ t \in Timers /\ (e[1] # "none" => e[2] \in Timers)
+SetCb(t, e) == /\ t \in Timers /\ (e[1] \notin {"none", "exec2"} => e[2] \in Timers)
                /\ S' = [S EXCEPT !.cb[t] = e] /\ UNCHANGED <<now, sm>> /\ Fix
 Exec(d) == /\ now' = now + d /\ S' = ImplExec(S, now + d, <<>>).s /\ UNCHANGED sm /\ Fix
 
